@@ -43,6 +43,7 @@ type Profile struct {
 	Encrypt                                                  bool
 	Vlog                                                     bool
 	SmallMem                                                 bool // memtables small enough to rotate within a run
+	Compaction                                               bool // compaction workers are part of the scenario
 }
 
 func genConfig(t *rapid.T, p *Profile) Config {
@@ -86,6 +87,10 @@ func genConfig(t *rapid.T, p *Profile) Config {
 	c.MaxLevels = rapid.IntRange(3, 7).Draw(t, "max_levels")
 	c.L0Tables = rapid.IntRange(1, 5).Draw(t, "l0_tables")
 	c.L0Stall = c.L0Tables + rapid.IntRange(1, 10).Draw(t, "l0_stall_extra")
+	if !p.Compaction {
+		// nobody compacts in this family: an L0 stall would never end
+		c.L0Stall = 100000
+	}
 	c.VerifyValueChecksum = rapid.Bool().Draw(t, "verify_value_checksum")
 	c.ChecksumMode = rapid.IntRange(0, 3).Draw(t, "checksum_mode")
 	if len(p.Groups) > 0 {
